@@ -235,6 +235,23 @@ def run(ctx, model_ok):
             ctx.violation("printing is not the canonical rendering / differs between construction histories", src,
                           {"expected_stdout": exp, "cli": c, "failing_values": len(bad)})
     tie.report_disagreements(ctx, [d for d in dis if d[0] not in {b[0] for b in bad}], "values")
+    # a `print` whose value cannot be rendered (a string that is not valid UTF-8, wherever it sits in the value) writes
+    # nothing at all: what stdout holds is the rendering of complete prints only
+    unprintable = []
+    for w in ('"é"[0]', '"né"[1:2]', '"€"[0:2]'):
+        for shape in ("@", "[@]", "[1, @]", "[\"first\", @, \"last\"]", "{\"a\": @}", "{\"a\": 1, \"b\": {\"c\": @}}", "[[1, [2, @]], 3]",
+                      "[\"né\", @]", "{\"k\": [\"x\", @], \"z\": 0}"):
+            unprintable.append(f'print("before")\nw := {w}\nprint({shape.replace("@", "w")})\nprint("after")\n')
+    uimpl, udis = tie.run(ctx, unprintable, "unprintable", model_ok)
+    for src, r in zip(unprintable, uimpl):
+        ctx.nontrivial(("unprintable", src[20:60]))
+        if r["status"] != "103" or r["stdout"] != "before\n":
+            c = core.run_cli(src)
+            if c["status"] != "103" or c["stdout"] != "before\n":
+                ctx.violation("a print that fails wrote part of its rendering (or the failure was not reported)", src,
+                              {"expected_stdout": "before\n", "cli": c})
+                break
+    tie.report_disagreements(ctx, udis, "unprintable")
     k = len(cases) * 3 // 4
     ctx.sample({"stream": "values", "src": cases[k][1][:500], "impl_stdout": impl[k]["stdout"][:300]})
     # (ii)
